@@ -24,6 +24,9 @@ type WireCase struct {
 	DefaultCode  int    `json:"defaultCode"`  // > 0: the handler returns the default response with this status code
 	// Fill: the request value, spelled out (an abstract value of the <Op>Params type); no random fill, no domain fix.
 	Fill json.RawMessage `json:"fill,omitempty"`
+	// FailWrite: the server-side ResponseWriter's Write fails for this call (the client went away); what matters is
+	// what the *following* calls on the same API value put on the wire
+	FailWrite bool `json:"failWrite,omitempty"`
 
 	byStatus bool
 }
@@ -86,10 +89,11 @@ func fixDomain(v reflect.Value, loc string, r *rand.Rand) {
 }
 
 type wireCtx struct {
-	rec    *Recorder
-	caseID string
-	api    http.Handler
-	inject int
+	rec       *Recorder
+	caseID    string
+	api       http.Handler
+	inject    int
+	failWrite bool
 }
 
 func RunWire(reg Registry, rec *Recorder, g Group) {
@@ -155,7 +159,7 @@ func (w *wireCtx) do(req *http.Request) (*http.Response, error) {
 	sreq := req.Clone(req.Context())
 	sreq.Body = io.NopCloser(bytes.NewReader(body))
 	sreq.RequestURI = req.URL.RequestURI()
-	cw := &countingWriter{hdr: http.Header{}}
+	cw := &countingWriter{hdr: http.Header{}, fail: w.failWrite}
 	var pan any
 	func() {
 		defer func() {
@@ -239,6 +243,7 @@ func runWireCase(reg Registry, rec *Recorder, ops []OpInfo, client reflect.Value
 	rec.Emit(Event{"ev": "Call", "case": wc.ID, "op": wc.Op, "sent": ProjectParams(params, false), "inject": wc.InjectStatus})
 	cur.caseID = wc.ID
 	cur.inject = wc.InjectStatus
+	cur.failWrite = wc.FailWrite
 	script := Script{Parse: true, ReadBody: true, Resp: wc.RespType, Random: true, Seed: wc.RespSeed, Code: 210 + int(wc.RespSeed%80), ByStatus: wc.byStatus} // never a documented status of the universe (200, 201, 404)
 	if wc.DefaultCode > 0 {
 		script.Default, script.Code = true, wc.DefaultCode
